@@ -267,6 +267,11 @@ CLIP_SPECS = [
     ('unbounded-range-clipped-to-a-single-cell',
      {'sheets': [['Sheet1', {'A1': 5, 'A2': '=A1*2', 'A3': '=SUM(2:2)+1'}]], 'names': {}, 'arrays': [],
       'calc': None}, 'Sheet1!2:2', 10),
+    # the whole used area is one cell
+    ('unbounded-range-clipped-to-a-single-cell',
+     {'sheets': [['Sheet1', {'A1': 5}]], 'names': {}, 'arrays': [], 'calc': None}, 'Sheet1!A:A', 5),
+    ('unbounded-range-clipped-to-a-single-cell',
+     {'sheets': [['Sheet1', {'A1': 5}]], 'names': {}, 'arrays': [], 'calc': None}, 'Sheet1!1:1', 5),
     # a column right of the used area: nothing to clip to
     ('unbounded-range-outside-the-used-area',
      {'sheets': [['Sheet1', {'A1': 5, 'A2': 7, 'B1': 1, 'B2': 2}]], 'names': {}, 'arrays': [], 'calc': None},
